@@ -48,6 +48,100 @@ pub fn gen(stream: &str, tier: &str, seed: u64) -> Vec<String> {
                 out.push(format!("pid {} {}", rng.below(65536), rng.below(65536)));
             }
         }
+        "tf" | "tn" => {
+            // bounded-exhaustive over the alphabet of character classes the validators distinguish
+            let alpha: [&str; 9] = ["/", "+", "#", "$", "a", "\0", "é", "你", "😀"];
+            let maxlen = if thorough { 6 } else { 5 };
+            let mut strs: Vec<String> = Vec::new();
+            for len in 0..=maxlen {
+                let total = (alpha.len() as u64).pow(len as u32);
+                for mut k in 0..total {
+                    let mut st = String::new();
+                    for _ in 0..len {
+                        st.push_str(alpha[(k % alpha.len() as u64) as usize]);
+                        k /= alpha.len() as u64;
+                    }
+                    strs.push(st);
+                }
+            }
+            let op = stream;
+            for st in &strs {
+                out.push(format!("{} {}", op, hex_or_dash(st.as_bytes())));
+            }
+            if stream == "tf" {
+                // with every prefix shape of "$share/"
+                let prefixes = ["$share/", "$share/g/", "$share//", "$share/你/", "$shar/", "$share", "$SYS/", "$share/g", "$share/+/", "$share/g/a/"];
+                let short = if thorough { 4 } else { 3 };
+                for pre in prefixes {
+                    for st in strs.iter().filter(|s| s.chars().count() <= short) {
+                        out.push(format!("tf {}", hex_or_dash(format!("{}{}", pre, st).as_bytes())));
+                    }
+                }
+            } else {
+                for pre in ["$share/", "$SYS/", "$share", "$SYS", "$sys/"] {
+                    for st in strs.iter().filter(|s| s.chars().count() <= 2) {
+                        out.push(format!("tn {}", hex_or_dash(format!("{}{}", pre, st).as_bytes())));
+                    }
+                }
+            }
+            // long strings around the 65,535-byte limit
+            for n in [65534usize, 65535, 65536] {
+                out.push(format!("{} {}", op, hex(&vec![b'a'; n])));
+                let mut v = vec![b'a'; n - 2];
+                v.extend_from_slice("é".as_bytes());
+                out.push(format!("{} {}", op, hex(&v)));
+                let mut w = b"$share/grp/".to_vec();
+                w.extend(vec![b'x'; n - 11]);
+                out.push(format!("{} {}", op, hex(&w)));
+            }
+            // random strings over the alphabet, and invalid UTF-8
+            let k = if thorough { 100_000 } else { 10_000 };
+            for _ in 0..k {
+                let len = rng.below(14) as usize;
+                let mut st = String::new();
+                if rng.chance(1, 3) {
+                    st.push_str(*rng.pick(&["$share/", "$share/ab/", "$share//", "$SYS/", "$share/é/"]));
+                }
+                for _ in 0..len {
+                    st.push_str(*rng.pick(&alpha));
+                }
+                out.push(format!("{} {}", op, hex_or_dash(st.as_bytes())));
+            }
+            for _ in 0..200 {
+                let len = 1 + rng.below(5) as usize;
+                let bytes: Vec<u8> = (0..len).map(|_| rng.next() as u8).collect();
+                out.push(format!("{} {}", op, hex(&bytes)));
+            }
+        }
+        "utf8" => {
+            // all 1- and 2-byte strings, boundaries of the 3-/4-byte forms, random
+            for a in 0..=255u8 {
+                out.push(format!("utf8 {}", hex(&[a])));
+            }
+            for a in 0..=255u8 {
+                for b in 0..=255u8 {
+                    if a >= 0x80 {
+                        out.push(format!("utf8 {}", hex(&[a, b])));
+                    }
+                }
+            }
+            for a in [0xe0u8, 0xe1, 0xec, 0xed, 0xee, 0xef, 0xf0, 0xf1, 0xf3, 0xf4, 0xf5] {
+                for b in [0x7fu8, 0x80, 0x8f, 0x90, 0x9f, 0xa0, 0xbf, 0xc0] {
+                    for c in [0x7fu8, 0x80, 0xbf, 0xc0] {
+                        out.push(format!("utf8 {}", hex(&[a, b, c])));
+                        for d in [0x7fu8, 0x80, 0xbf, 0xc0] {
+                            out.push(format!("utf8 {}", hex(&[a, b, c, d])));
+                        }
+                    }
+                }
+            }
+            let k = if thorough { 200_000 } else { 20_000 };
+            for _ in 0..k {
+                let len = rng.below(9) as usize;
+                let bytes: Vec<u8> = (0..len).map(|_| if rng.chance(1, 2) { rng.next() as u8 } else { *rng.pick(&[0x41u8, 0xc3, 0xa9, 0xe4, 0xbd, 0xa0, 0xf0, 0x9f, 0x98, 0x80]) }).collect();
+                out.push(format!("utf8 {}", hex_or_dash(&bytes)));
+            }
+        }
         other => panic!("unknown stream {other}"),
     }
     out
